@@ -383,7 +383,7 @@ def evaluate(case, ctx):
     if hv:
         return viols + hv
     if par.exit != 0:
-        if C.is_buffer_too_small(par):
+        if C.is_buffer_too_small(par, case):
             raise engine.Discard("buffer-too-small")
         viols.append(C.V("exit-status", f"par: exit status {par.exit}; stderr tail {par.stderr[-300:]!r}"))
     else:
